@@ -14,7 +14,7 @@ HEAD=$(git -C /repo rev-parse HEAD)
 if [ ! -d $S/repo/.git ] && [ ! -f $S/repo/.git ]; then git -C /repo worktree add --detach $S/repo $HEAD >/dev/null 2>&1 || { echo "cannot create worktree"; exit 2; }; fi
 git -C $S/repo checkout -q --detach $HEAD 2>/dev/null; git -C $S/repo checkout -q -- . ; git -C $S/repo clean -fdq -e target
 if ! git -C $S/repo apply "$PATCH" 2>/dev/null; then echo "patch does not apply: $PATCH"; exit 2; fi
-rsync -a --delete /verif/sim/src/ $S/sim/src/
+rsync -a --delete ${MUT_SRC:-/verif/sim}/src/ $S/sim/src/
 sed "s#path = \"/repo\"#path = \"$S/repo\"#" /verif/sim/Cargo.toml > $S/sim/Cargo.toml
 cp /verif/sim/Cargo.lock $S/sim/Cargo.lock
 printf '[net]\noffline = true\n\n[build]\nrustflags = ["--cfg", "ishape_rust_itree_verif"]\ntarget-dir = "%s/target"\n' $S > $S/sim/.cargo/config.toml
